@@ -4,13 +4,13 @@
 # the check of the seed's own property is run at the quick tier (GV_ROOT / GV_TOOL point into the
 # lane). /repo and /verif/harness are never touched, so this can run beside other work.
 #   tools/lane_sweep.sh <lanes> [seed-name ...]      (default: every directory under seeded/)
-# Result: one line per seed in /dev/shm/lanes/result.log, checks_result.json of each seed updated
+# Result: one line per seed in /dev/shm/lanes-<pid>/result.sorted (printed at the end when seeds were missed), checks_result.json of each seed updated
 # for its own property. Lanes and worktrees are removed at the end.
 set -uo pipefail
 lanes="${1:-4}"; shift || true
 cd /verif
 if [ $# -gt 0 ]; then names=("$@"); else names=($(ls seeded)); fi
-base=/dev/shm/lanes
+base=/dev/shm/lanes-$$
 rm -rf "$base"; mkdir -p "$base"
 git -C /repo worktree prune
 lane() {
@@ -63,3 +63,5 @@ git -C /repo worktree prune
 sort "$base/result.log" > "$base/result.sorted"
 echo "seeds: $(wc -l < "$base/result.sorted")  missed: $(grep -c ' own=0 ' "$base/result.sorted")  broken: $(grep -c ' own=-' "$base/result.sorted")"
 grep -E ' own=(0|-[0-9]) ' "$base/result.sorted" || true
+if [ -n "${LANE_KEEP:-}" ]; then cp "$base/result.sorted" "$LANE_KEEP"; fi
+rm -rf "$base"
